@@ -24,6 +24,14 @@ func jsonName(f *types.Var, tag string) (string, bool) {
 
 // jsonCopy decodes the structured document (sv, st) into a value of type dt starting from dv.
 func (w *Worker) jsonCopy(s *State, sv Value, st types.Type, dv Value, dt types.Type) Value {
+	// a pointer-typed source field: nil means the member is absent from the document
+	if sp, ok := st.Underlying().(*types.Pointer); ok {
+		p, _ := sv.(PtrV)
+		if p.Obj == 0 {
+			return dv
+		}
+		return w.jsonCopy(s, s.load(p), sp.Elem(), dv, dt)
+	}
 	if isTimeType(dt) {
 		if _, ok := sv.(TimeV); ok {
 			return sv
@@ -141,6 +149,14 @@ func (w *Worker) jsonUnmarshal(c *icall, data SliceV, target IfaceV) ([]*State, 
 		return nil, false
 	}
 	telem := target.Typ.(*types.Pointer).Elem()
+	if _, isIface := telem.Underlying().(*types.Interface); isIface {
+		// json.Unmarshal(b, &v) with v an interface holding a pointer: decode into the pointee
+		if inner, ok := s.load(tp).(IfaceV); ok && !inner.IsNil() {
+			if _, isPtr := inner.V.(PtrV); isPtr {
+				return w.jsonUnmarshal(c, data, inner)
+			}
+		}
+	}
 	if data.Obj != 0 {
 		if b, ok := s.Heap[data.Obj].(BlobV); ok && b.Kind == "json" {
 			return w.branch(s, b.Bad,
